@@ -394,7 +394,7 @@ def translate_repo(repo):
             out.append('Definition gen_%s%s := %s.' % (full, args, body))
             summary.append({'def': 'gen_' + full, 'file': rel, 'function': f.name, 'line': line, 'source': text, 'gallina': body})
         out.append('')
-    for fn in (translate_build_profile, translate_growth_call, translate_phase_closures):
+    for fn in (translate_build_profile, translate_growth_call, translate_phase_closures, translate_phase_stores):
         text, summ = fn(repo)
         out.append(text)
         summary += summ
@@ -630,6 +630,38 @@ def translate_phase_closures(repo):
                             '  [%s].' % '; '.join('callback table %s ps d %s' % (u, v) for u in uses), '']
                     summary.append({'def': name, 'file': rel, 'function': f.name, 'line': cl.lineno, 'source': src, 'gallina': ', '.join(uses)})
     return '\n'.join(out), summary
+
+
+# ------------------------------------------------------------------------------------------------
+# stores into per-phase histories inside loops over the phases: does the target carry the loop's phase index?
+PHASE_FIELDS = ('xEqAlpha', 'xEqBeta', 'drivingForce', 'impingement', 'Gcrit', 'Rcrit', 'nucRate', 'precipitateDensity',
+                'Rnuc', 'Ravg', 'ARavg', 'volFrac', 'fconc')
+
+
+def translate_phase_stores(repo):
+    flags, summary = [], []
+    for rel in PHASE_LOOP_FILES:
+        tree = ast.parse(open(os.path.join(repo, rel)).read())
+        for f in [n for n in ast.walk(tree) if isinstance(n, ast.FunctionDef)]:
+            for loop in [n for n in ast.walk(f) if _phase_loop_var(n) is not None]:
+                v = _phase_loop_var(loop)
+                for st in [n for b in loop.body for n in ast.walk(b) if isinstance(n, (ast.Assign, ast.AugAssign))]:
+                    for tg in (st.targets if isinstance(st, ast.Assign) else [st.target]):
+                        node, idx = tg, []
+                        while isinstance(node, ast.Subscript):
+                            idx = (list(node.slice.elts) if isinstance(node.slice, ast.Tuple) else [node.slice]) + idx
+                            node = node.value
+                        if isinstance(node, ast.Attribute) and node.attr in PHASE_FIELDS and idx:
+                            ok = len(idx) >= 2 and isinstance(idx[1], ast.Name) and idx[1].id == v
+                            flags.append('true' if ok else 'false')
+                            summary.append({'def': 'gen_phase_stores', 'file': rel, 'function': f.name, 'line': st.lineno,
+                                            'source': ast.unparse(tg), 'gallina': 'indexed by the phase index' if ok else 'NOT indexed by the phase index'})
+    if not flags:
+        raise TranslateError('no store into a per-phase history found in a loop over the phases')
+    text = ['(* stores into per-phase histories (%s) inside loops over the phases: is position 1 of the index the loop\'s phase index? *)' % ', '.join(PHASE_FIELDS)]
+    text += ['(*   %s:%d %s : %s *)' % (d['file'], d['line'], d['source'].replace('*)', '* )'), d['gallina']) for d in summary]
+    text += ['Definition gen_phase_stores : list bool := [%s].' % '; '.join(flags), '']
+    return '\n'.join(text), summary
 
 
 if __name__ == '__main__':
